@@ -69,6 +69,27 @@ def scripts(rng, tmpdir):
     sc.solve().add_calibration(b'second')
     sc.lines += ['cal find_calibration 0 ' + h('e12'), 'cal get_info 0 0', 'cal new_free 0', 'cal delete_calibration 0 0', 'cal free 0']
     S.append(('calibration-E12-merror', sc.lines))
+    # an unknown parameter solved on three frequencies, then by a second vnacal_new_t on five: the second solve replaces the solved
+    # vectors.  After a failed solve the parameter is read before the solve is repeated (third element: probes run right after the
+    # failed call of that line).
+    from props import c02
+    A = c02.Sc(rng, 'T8', 1, 1, 3, form='m').begin()
+    for code in (calsim.SHORT, calsim.OPEN, calsim.MATCH):
+        A.add_reflect(1, code)
+    g = 0.3 + 0.4j
+    u = A.unknown(g * 1.1, g)
+    A.std1(1, u, g)
+    A.solve()
+    B = c02.Sc(rng, 'T8', 1, 1, 5, form='m', slot_c=0, slot_n=1, fvec=[1e9 * (1 + 0.2 * i) for i in range(5)]).begin(create=False)
+    for code in (calsim.SHORT, calsim.OPEN, calsim.MATCH):
+        B.add_reflect(1, code)
+    B.std1(1, u, g)
+    B.solve()
+    lines_ = A.lines + B.lines
+    i_solve2 = len(lines_) - 1
+    probe_ = ['cal get_parameter_value 0 %d %s' % (u, vlib.d2h(1.5e9)), 'cal get_parameter_value 0 %d %s' % (u, vlib.d2h(1.0e9))]
+    lines_ += probe_ + ['cal add_calibration 0 %s 1' % h('two'), 'cal free 0']
+    S.append(('calibration-resolve', lines_, {i_solve2: probe_}))
     return S
 
 
@@ -103,7 +124,9 @@ def run(chk):
     fired_total = 0
     try:
         allscripts = scripts(rng, tmpdir) + random_scripts(rng, 4 if quick else 60)
-        for name, lines in allscripts:
+        for entry in allscripts:
+            name, lines = entry[0], entry[1]
+            probes = entry[2] if len(entry) > 2 else {}
             # baseline with allocation counts
             probe = []
             for l in lines:
@@ -123,13 +146,14 @@ def run(chk):
                     continue        # composite observation made of many API calls by the harness; its parts are faulted as separate lines
                 ks = range(1, K[i] + 1)
                 if quick and K[i] > 12:
-                    ks = list(range(1, 9)) + sorted(rng.sample(range(9, K[i] + 1), 4))
+                    # the first allocations, the last ones (results are stored at the end of a call), some in between
+                    ks = list(range(1, 9)) + sorted(rng.sample(range(9, K[i] - 1), min(3, max(0, K[i] - 10)))) + [K[i] - 1, K[i]]
                 if name.startswith('random-') and K[i] > 0 and rng.random() < (0.6 if quick else 0.0):
                     ks = [rng.randint(1, K[i])]
                 for k in ks:
                     # jobs run in parallel: every job gets its own file name
                     own = [x.replace(h(os.path.join(tmpdir, 'f.vnacal'))[1:], h(os.path.join(tmpdir, 'f%d.vnacal' % len(jobs)))[1:]) for x in lines]
-                    jobs.append((i, k, own[:i] + ['fault %d' % k, own[i], 'allocs', own[i]] + own[i + 1:]))
+                    jobs.append((i, k, own[:i] + ['fault %d' % k, own[i], 'allocs'] + probes.get(i, []) + [own[i]] + own[i + 1:]))
             with ThreadPoolExecutor(16) as ex:
                 results = list(ex.map(run_one, [(exe, j[2]) for j in jobs]))
             for (i, k, script), (o, rc, err) in zip(jobs, results):
@@ -138,13 +162,14 @@ def run(chk):
                 if rc != 0 or len(o) != len(script) + 1:
                     chk.violation('crash-' + name, '%s fails -> crash / sanitizer / leak report:\n%s' % (tag, err[-1500:]), script)
                     break
-                faulted, fired, retry = o[i + 1], o[i + 2], o[i + 3]
+                npr = len(probes.get(i, []))
+                faulted, fired, retry = o[i + 1], o[i + 2], o[i + 3 + npr]
                 if 'fired=1' not in fired:
                     chk.count('fault_not_reached')
                     continue
                 fired_total += 1
                 rest_base = base[i + 1:]
-                rest = o[i + 4:-1]
+                rest = o[i + 4 + npr:-1]
                 if faulted == base[i]:
                     # the call absorbed the failure; the retry is a second call and is not compared
                     chk.count('absorbed')
